@@ -68,6 +68,9 @@
 #define SPEC_HEXL(n) ((char)((n) < 10 ? '0' + (n) : 'a' + ((n) - 10)))
 #define SPEC_HEXVAL(c) (SPEC_ASCII_DIGIT(c) ? U8(c) - 0x30 : (U8(c) >= 0x41 && U8(c) <= 0x46) ? U8(c) - 0x41 + 10 : U8(c) - 0x61 + 10)
 
+/* ASCII lowercase of a byte: only U+0041..U+005A change */
+#define SPEC_TO_LOWER(c) ((char)(SPEC_ASCII_UPPER_ALPHA(c) ? U8(c) + 0x20 : U8(c)))
+
 /* spec-side names of extracted predicates, used inside loop invariants of <algorithm> instances (no calls allowed there) */
 #define SPEC_is_digit(c) SPEC_ASCII_DIGIT(c)
 #define SPEC_is_ascii_digit(c) SPEC_ASCII_DIGIT(c)
